@@ -60,13 +60,12 @@ CHECKS = {
 
 NA = {
     "C03": "Conflict::graph/analyze_unsolvable read SolverState/SolverCache (FrozenMap, HashMap, HashSet) and build a petgraph: " + R1,
-    "C06": "the subject is independence from hash seeds; the encoding would need symbolic execution of hashbrown with a symbolic seed, which does not finish even for one concrete insert (P7)",
+    "C06": "the subject is independence from hash seeds and addresses; the encoding would need symbolic execution of hashbrown with a symbolic seed, which does not finish even for one concrete insert (P7); running the solver twice in two processes is observation, not a solver question",
     "C07": "decide() and the sorted-candidate cache run over IndexMap/FrozenMap solver state: " + R1,
     "C08": "decide()/activity/backjumping over IndexMap/FrozenMap solver state: " + R1,
-    "C09": "a property of the provider-call history of Encoder/SolverCache: " + R1,
-    "C10": "schedules of FuturesUnordered + event_listener + RefCell<HashMap>; Kani has no support for async schedules and FuturesUnordered does not finish (P9): " + R1,
-    "C11": "same code as C10 (set of pending futures at quiescence): " + R1,
-    "C12": "poll points are inside propagate() and the async cache methods: " + R1,
+    "C09": "a property of the provider-call HISTORY (which get_candidates/get_dependencies calls happen, in which causal order, how often): there is no formula for a solver to decide - the call log of the certificate driver would make it testable, which is a different technique; symbolic execution of Encoder/SolverCache does not finish (DESIGN 8.1, P27-P30)",
+    "C11": "a property of the set of requests outstanding whenever the solver blocks (a history/schedule property): the scheduled runtime of the C10 check observes it but there is nothing for a solver to decide, and symbolic execution of the Encoder under a symbolic schedule does not finish (DESIGN 8.1, P27-P29)",
+    "C12": "a property of the call history relative to the first cancellation value (no further provider call, exactly that value returned): observation of a call log, nothing for a solver to decide; symbolic execution of propagate()/SolverCache with a symbolic cancellation point does not finish (DESIGN 8.1, P27-P30)",
     "C13": "Solver.state reset vs persistent SolverCache across solves: " + R1,
     "C14": "successive run_sat calls over SolverState: " + R1,
 }
@@ -75,6 +74,9 @@ PENDING = []
 CERT = (" PLUS the certificate engine (second engine, DESIGN 8.2): the real Solver::solve (dev and release builds, real dependencies) is run on every universe of an "
         "enumerated bounded family (400 per family quick, 5000 thorough; families plain/full/wide/hints/hard/deep/lazycon/soft/softx/reuse/async/snapshot, see DESIGN 8.2) and z3 decides over ALL selections of the solvables: ")
 CERT_NOTE = " Certificate engine: universes are enumerated by a seeded generator (not symbolic); Spec(U) is written from the text of C01; read-only dump accessors are attached to the scratch copy under cfg(verif_cert); z3 (python3-vt) trusted, `unknown` => inconclusive."
+CHECKS["C01"]["text"] += " K7 (second scratch copy, built against the dependency shims of DESIGN 8.1): the Requires clause with a populated candidate cache - 1-3 candidates grouped into 1-3 version sets, single and union keys, an unrelated second entry - visit_literals yields exactly (not parent) or candidates in cached order, and next_unwatched_literal obeys the K3 contract for every assignment, watch pair and watch index."
+CHECKS["C18"]["text"] += " Pool interning (built against the dependency shims of DESIGN 8.1, so FrozenCopyMap's HashMap is an association list): for Pool<VS(u8), N(u8)> with symbolic values - equal names / (package, version set) pairs share an id, different ones get different dense ids, re-interning and lookup return the same id, a never-interned name is not found, resolving returns what was interned, a reference taken before later interning stays valid, solvable and union ids are dense and unique even for equal records, union members keep their order. Hashing itself (a wrong Hash/Eq pair) and intern_string are not exercised."
+CHECKS["C18"]["note"] += " Pool harnesses: ahash/elsa/indexmap/futures/event-listener/bitvec/tracing replaced by /verif/shims in the scratch copy; whether two interned values are equal is enumerated per harness."
 CHECKS["C01"]["text"] += CERT + "the returned solution satisfies Spec(U), and the clause database emitted by the real Encoder implies Spec(U) restricted to everything that was fetched (no requirement, constrains entry, lock, exclusion or one-per-package fact is missing)."
 CHECKS["C01"]["note"] += CERT_NOTE
 CHECKS["C01"]["technique"] += "; SMT (z3) validation over all selections of the clause database and solution produced by the real solver per enumerated universe"
